@@ -311,6 +311,9 @@ pub struct BatchResult {
     pub capped_at: Option<u64>,
     pub determinism_ok: bool,
     pub harness_error: Option<String>,
+    /// The first runs, executed a second time, gave another trace: the code
+    /// under test has a source of nondeterminism the simulator does not own.
+    pub nondeterminism: Option<String>,
 }
 
 pub fn is_known<'a>(known: &'a [KnownFinding], v: &Violation) -> Option<&'a KnownFinding> {
@@ -460,6 +463,7 @@ pub fn run_batch(cfg: &BatchCfg<'_>, f: &RunFn) -> BatchResult {
 
     // determinism recheck: the first runs again, on this thread
     let mut determinism_ok = true;
+    let mut nondeterminism: Option<String> = None;
     let mut herr = harness_error.lock().unwrap().take();
     if herr.is_none() {
         let firsts = first_hashes.lock().unwrap().clone();
@@ -470,7 +474,7 @@ pub fn run_batch(cfg: &BatchCfg<'_>, f: &RunFn) -> BatchResult {
                 Ok(_) => {
                     if rep.hash != h {
                         determinism_ok = false;
-                        herr = Some(format!(
+                        nondeterminism = Some(format!(
                             "determinism recheck failed on run {i}: {h:016x} vs {:016x}",
                             rep.hash
                         ));
@@ -497,6 +501,7 @@ pub fn run_batch(cfg: &BatchCfg<'_>, f: &RunFn) -> BatchResult {
         capped_at,
         determinism_ok,
         harness_error: herr,
+        nondeterminism,
     }
 }
 
